@@ -214,8 +214,8 @@ fn declare(case: &IncCase, sb: &Sandbox) -> (Value, Option<Value>) {
     if case.out_cmd {
         output.push(json!({"cmd_stdout": "cat o.txt"}));
     }
-    let consumer = json!({"dependencies": consumer_deps, "build": ":", "input": input, "output": output});
-    let p2 = json!({"build": ":", "output": [{"cmd_stdout": "cat v.txt"}, {"paths": ["gen2"]}]});
+    let consumer = json!({"dependencies": consumer_deps, "build": build_script("c", ""), "input": input, "output": output});
+    let p2 = json!({"build": build_script("p2", ""), "output": [{"cmd_stdout": "cat v.txt"}, {"paths": ["gen2"]}]});
     // producer
     let mut pout: Vec<Value> = vec![];
     if case.prod_paths {
@@ -230,9 +230,9 @@ fn declare(case: &IncCase, sb: &Sandbox) -> (Value, Option<Value>) {
         pout.push(json!({"cmd_stdout": "cat v.txt"}));
     }
     let producer = if case.layout == 3 {
-        json!({"build": ":", "input": ["q.output"], "output": pout})
+        json!({"build": build_script("p", ""), "input": ["q.output"], "output": pout})
     } else {
-        json!({"build": ":", "output": pout})
+        json!({"build": build_script("p", ""), "output": pout})
     };
     let _ = sb;
     match case.layout {
@@ -252,7 +252,7 @@ fn declare(case: &IncCase, sb: &Sandbox) -> (Value, Option<Value>) {
             } else {
                 json!({"imports": {"sub": "sub"}, "targets": {"c": consumer}})
             },
-            Some(json!({"name": "sub", "targets": {"p": producer, "q": {"build": ":", "output": [{"paths": ["qgen"]}]}}})),
+            Some(json!({"name": "sub", "targets": {"p": producer, "q": {"build": build_script("q", ""), "output": [{"paths": ["qgen"]}]}}})),
         ),
     }
 }
@@ -814,4 +814,94 @@ pub fn replay_inc(v: &Value) -> Result<CaseResult, String> {
     let which = v["engine"].as_str().unwrap_or("").trim_start_matches("INC-").to_string();
     let c: IncCase = serde_json::from_value(v["case"].clone()).map_err(|e| format!("bad INC case: {}", e))?;
     Ok(eval_inc(&c, &which))
+}
+
+/// The same histories through the real binary (main -> actors -> incremental step).
+pub fn eval_inc_bb(case: &IncCase, which: &str) -> CaseResult {
+    let mut res = CaseResult::default();
+    let w = match build_world(case, which) {
+        Ok(w) => w,
+        Err(e) => {
+            res.inconclusive = Some(e);
+            return res;
+        }
+    };
+    let args = vec!["c".to_string()];
+    let run = |w: &World| -> Option<(bool, ZOutcome)> {
+        w.sb.clear_trace();
+        let out = run_zinoma(&w.sb, &w.root, &args, &[], std::time::Duration::from_secs(40), true);
+        if out.timed_out {
+            return None;
+        }
+        Some((started(&w.sb.trace(), "c") > 0, out))
+    };
+    let (ran1, out1) = match run(&w) {
+        Some(x) => x,
+        None => {
+            res.inconclusive = Some("still busy".into());
+            return res;
+        }
+    };
+    let fail = |mut res: CaseResult, sig: &str, msg: String, labels: &Vec<String>| {
+        res.signature = Some(format!("bb-{}:{}", which, sig));
+        res.replay = json!({"engine": format!("BBINC-{}", which), "case": serde_json::to_value(case).unwrap(), "message": msg, "edits": labels});
+        res.violation = Some(msg);
+        res
+    };
+    let none: Vec<String> = vec![];
+    if !out1.success() {
+        res.inconclusive = Some(format!("first invocation failed: {}", out1.stderr.lines().last().unwrap_or("")));
+        return res;
+    }
+    if !ran1 {
+        return fail(res, "skipped-without-record", "the first invocation skipped the consumer although nothing was recorded".into(), &none);
+    }
+    let mut all = w.input.clone();
+    all.extend(w.output.iter().cloned());
+    let s1 = snapshot_resources(&all);
+    let storable = s1.cmds.values().all(|v| v.is_some());
+    let mut counter = 0i64;
+    let mut labels: Vec<String> = vec![];
+    for (op, sel) in &case.edits {
+        let op = if case.neutral_only { NEUTRAL_OPS[*op as usize % NEUTRAL_OPS.len()] } else { *op };
+        if let Some(l) = apply_edit(&w, case, op, *sel, &mut counter) {
+            labels.push(l);
+        }
+    }
+    let s2 = snapshot_resources(&all);
+    let (ran2, out2) = match run(&w) {
+        Some(x) => x,
+        None => {
+            res.inconclusive = Some("still busy".into());
+            return res;
+        }
+    };
+    // a failing declared command makes the invocation fail legitimately? No: it only forces a run.
+    let same = unchanged(&s1, &s2);
+    let allowed = skip_allowed(&s1, &s2);
+    res.nontrivial = !same || case.layout >= 2;
+    res.fingerprint = format!("{}|{:?}|{}", case.layout, labels.iter().collect::<BTreeSet<_>>(), same);
+    res.classes = vec![format!("layout-{}", case.layout), if same { "unchanged".into() } else { "changed".into() }];
+    res.sample = json!({"layout": case.layout, "edits": labels, "second_invocation": if ran2 {"ran"} else {"skipped"}, "model_unchanged": same});
+    if !out2.success() {
+        // a deleted producer output etc. never makes the consumer's decision fail
+        if s2.cmds.values().all(|v| v.is_some()) {
+            return fail(res, "error", format!("second invocation failed: {}", out2.stderr.lines().last().unwrap_or("")), &labels);
+        }
+        return res;
+    }
+    if !ran2 {
+        if let Err(why) = &allowed {
+            return fail(res, "wrong-skip", format!("real binary: consumer skipped although {} (edits: {:?})", why, labels), &labels);
+        }
+    } else if same && storable && which != "c02" {
+        return fail(res, "not-skipped", format!("real binary: nothing the consumer declares changed (edits: {:?}) yet its script ran again", labels), &labels);
+    }
+    res
+}
+
+pub fn replay_inc_bb(v: &Value) -> Result<CaseResult, String> {
+    let which = v["engine"].as_str().unwrap_or("").trim_start_matches("BBINC-").to_string();
+    let c: IncCase = serde_json::from_value(v["case"].clone()).map_err(|e| format!("bad case: {}", e))?;
+    Ok(eval_inc_bb(&c, &which))
 }
